@@ -23,7 +23,7 @@ from . import common
 from .common import Check, run_tlc, run_tlc_sharded, require_model_ok
 from .realeval import ev, close
 
-INVS = ["InvClassifier", "InvPartition", "InvSumRule", "InvTypes"]
+INVS = ["InvClassifier", "InvPartition", "InvSumRule", "InvTypes", "InvBinIsLemmaBin"]
 
 
 def replay(case):
@@ -168,6 +168,8 @@ def run(tier, replay=None):
         case = common.load_replay(replay)["case"]
         print(json.dumps(case, indent=1)[:4000])
         return 0
+    # bins partition [0, nb w) for ALL integers (Apalache); MC_PairHist!InvBinIsLemmaBin ties TLC's bin index to it
+    common.apalache_lemmas(chk, "BinLemma", ["InsideHasBin", "AtMostOneBin", "BeyondHasNoBin"], ["ClosedBinsDisjoint"])
     # the four models are independent: their TLC runs overlap (quick tier), then the cases are replayed
     rng = random.Random(common.SEED * 7919 + 3)
     recs = gen_records(rng, 64 if tier == "quick" else 800)
